@@ -189,10 +189,10 @@ Proof. intros gs h g' H. exists g'. split; [exact H|lia]. Qed.
 
 (* ================= the queue-side session invariant ================= *)
 (* w = max_prediction, d = the input delay of the local players; gs = per player (history, low) *)
-Record QS (w d : Z) (p : p2p) (gs : list ghost) : Prop := {
+Record QSg (sp : bool) (w d : Z) (p : p2p) (gs : list ghost) : Prop := {
   qs_w : 1 <= w /\ ps_maxpred p = w /\ s_maxpred (ps_sync p) = w;
   qs_d : 0 <= d /\ w + d + 3 <= QLEN;
-  qs_mode : ps_running p = true /\ ps_sparse p = false /\ ps_disc_frame p = NULL;
+  qs_mode : ps_running p = true /\ ps_sparse p = sp /\ ps_disc_frame p = NULL;
   qs_n : Z.of_nat (length gs) = ps_nplayers p /\ 0 < ps_nplayers p /\ length (ps_kinds p) = length gs /\
          length (ps_status p) = length gs;
   qs_conn : connected (ps_status p);
@@ -206,9 +206,24 @@ Record QS (w d : Z) (p : p2p) (gs : list ghost) : Prop := {
   qs_pending : forall h pi, assoc_get (ps_pending p) h = Some pi -> pi_frame pi = s_current (ps_sync p);
   qs_spec : spec_ok p gs;
 }.
+Arguments qs_w {sp} w d p gs _.
+Arguments qs_d {sp} w d p gs _.
+Arguments qs_mode {sp} w d p gs _.
+Arguments qs_n {sp} w d p gs _.
+Arguments qs_conn {sp} w d p gs _.
+Arguments qs_gossip {sp} w d p gs _.
+Arguments qs_qs {sp} w d p gs _.
+Arguments qs_last {sp} w d p gs _.
+Arguments qs_frames {sp} w d p gs _.
+Arguments qs_kinds {sp} w d p gs _.
+Arguments qs_pending {sp} w d p gs _.
+Arguments qs_spec {sp} w d p gs _.
+(* dense saving (the mode of the unconditional theorems below); sparse saving: SessionSparse2.v *)
+Notation QS := (QSg false).
 
-Lemma QS_outgoing : forall w d p gs X Y, QS w d p gs -> QS w d (with_outgoing p X Y) gs.
-Proof. intros w d p gs X Y [A B C D E F G H I J K]. constructor; cbn [with_outgoing ps_maxpred ps_sync ps_running ps_sparse ps_spectators ps_disc_frame ps_nplayers ps_kinds ps_status ps_remotes ps_pending]; assumption. Qed.
+
+Lemma QS_outgoing : forall sp w d p gs X Y, QSg sp w d p gs -> QSg sp w d (with_outgoing p X Y) gs.
+Proof. intros sp w d p gs X Y [A B C D E F G H I J K]. constructor; cbn [with_outgoing ps_maxpred ps_sync ps_running ps_sparse ps_spectators ps_disc_frame ps_nplayers ps_kinds ps_status ps_remotes ps_pending]; assumption. Qed.
 
 Lemma updz_same {A} : forall (l : list A) i x, nth_error l i = Some x -> updz l i x = l.
 Proof.
@@ -253,8 +268,8 @@ Lemma out_only_trans : forall a b c, out_only a b -> out_only b c -> out_only a 
 Proof. unfold out_only. intros a b c H1 H2. rewrite H2. rewrite H1 at 1. destruct a; reflexivity. Qed.
 Lemma out_only_with : forall p X Y, out_only p (with_outgoing p X Y).
 Proof. intros. unfold out_only. destruct p; reflexivity. Qed.
-Lemma QS_out_only : forall w d p p' gs, QS w d p gs -> out_only p p' -> QS w d p' gs.
-Proof. intros w d p p' gs H E. rewrite E. apply QS_outgoing. exact H. Qed.
+Lemma QS_out_only : forall sp w d p p' gs, QSg sp w d p gs -> out_only p p' -> QSg sp w d p' gs.
+Proof. intros sp w d p p' gs H E. rewrite E. apply QS_outgoing. exact H. Qed.
 
 Lemma queue_outgoing_ok : forall p h i, pi_frame i <> NULL -> exists p', queue_outgoing p h i = Ok p' /\ out_only p p'.
 Proof.
@@ -385,8 +400,8 @@ Proof.
 Qed.
 
 (* the part of an iteration after the sync layer accepted the input for frame c + d *)
-Lemma register_tail : forall w d p gs h v r q q' hist hist' low,
-  QS w d p gs -> all_clean (s_queues (ps_sync p)) ->
+Lemma register_tail : forall sp w d p gs h v r q q' hist hist' low,
+  QSg sp w d p gs -> all_clean (s_queues (ps_sync p)) ->
   0 <= h -> nth_error (ps_kinds p) (Z.to_nat h) = Some KLocal ->
   nth_error (s_queues (ps_sync p)) (Z.to_nat h) = Some q -> nth_error gs (Z.to_nat h) = Some (hist, low) ->
   pi_frame (q_pred q) = NULL -> q_first_incorrect q = NULL ->
@@ -403,7 +418,7 @@ Lemma register_tail : forall w d p gs h v r q q' hist hist' low,
       (fun p2 => res_bind (queue_outgoing (with_status p2 (set_stat (ps_status p2) h (mkcs (cs_disc (stat_at p2 h)) actual)))
                                           h (mkpi actual v))
                           (fun p4 => register_go p4 r)) = register_go p' r /\
-    QS w d p' gs' /\ all_clean (s_queues (ps_sync p')) /\ p_rest p p' /\
+    QSg sp w d p' gs' /\ all_clean (s_queues (ps_sync p')) /\ p_rest p p' /\
     s_current (ps_sync p') = s_current (ps_sync p) /\ s_last_confirmed (ps_sync p') = s_last_confirmed (ps_sync p) /\
     Done (s_current (ps_sync p)) d (s_queues (ps_sync p')) gs' h /\
     (forall h', h' <> h -> 0 <= h' -> Done (s_current (ps_sync p)) d (s_queues (ps_sync p)) gs h' ->
@@ -411,7 +426,7 @@ Lemma register_tail : forall w d p gs h v r q q' hist hist' low,
     grows_all (s_current (ps_sync p)) (s_queues (ps_sync p)) gs (s_queues (ps_sync p')) gs' /\
     hist_step d (ps_pending p) [h] gs gs'.
 Proof.
-  intros w d p gs h v r q q' hist hist' low HQS Hcl Hh Hk Eq Eg Hpn Hfq I' D' U' R' F' P' Hlen' Hle Hreach pi kf Hpi Hv Hext Hkk p1 actual.
+  intros sp w d p gs h v r q q' hist hist' low HQS Hcl Hh Hk Eq Eg Hpn Hfq I' D' U' R' F' P' Hlen' Hle Hreach pi kf Hpi Hv Hext Hkk p1 actual.
   pose proof HQS as [Hw Hd Hmode Hn Hconn Hgos HQ Hlast Hfr Hkinds Hpe Hsok].
   set (c := s_current (ps_sync p)) in *. set (L := s_last_confirmed (ps_sync p)) in *.
   pose proof (QsI_length _ _ _ _ HQ) as Hlq.
@@ -439,7 +454,7 @@ Proof.
   { unfold stat_at. rewrite Hst2. apply nth_connected. exact Hconn. }
   assert (HpA : with_status p2 st' = with_outgoing pA (ps_outgoing p2) (ps_last_sent_out p2)).
   { subst st' pA stA. rewrite Hdisc, Hst2. rewrite O2. subst p1. reflexivity. }
-  assert (HQA : QS w d pA gs').
+  assert (HQA : QSg sp w d pA gs').
   { subst pA p1 stA gs'. constructor;
       cbn [with_status with_sync with_queues ps_maxpred ps_sync ps_running ps_sparse ps_spectators ps_disc_frame ps_nplayers
            ps_kinds ps_status ps_remotes ps_pending s_maxpred s_current s_last_confirmed s_queues].
@@ -464,7 +479,7 @@ Proof.
         exact (Hkinds _ _ _ _ A B C).
     - exact Hpe.
     - eapply spec_ok_grow; [exact Hsok|reflexivity|reflexivity|reflexivity|]. eapply grow_updz; eassumption. }
-  assert (HQ4 : QS w d p4 gs').
+  assert (HQ4 : QSg sp w d p4 gs').
   { eapply QS_out_only; [|exact O4]. rewrite HpA. apply QS_outgoing. exact HQA. }
   assert (Hs4 : ps_sync p4 = with_queues (ps_sync p) (updz (s_queues (ps_sync p)) (Z.to_nat h) q')).
   { rewrite O4. cbn [with_outgoing ps_sync]. rewrite HpA. reflexivity. }
@@ -497,12 +512,12 @@ Proof.
 Qed.
 
 (* one iteration of register_local_inputs for a local handle with a pending input *)
-Lemma register_step : forall w d p gs h pi r,
-  QS w d p gs -> all_clean (s_queues (ps_sync p)) ->
+Lemma register_step : forall sp w d p gs h pi r,
+  QSg sp w d p gs -> all_clean (s_queues (ps_sync p)) ->
   0 <= h -> nth_error (ps_kinds p) (Z.to_nat h) = Some KLocal ->
   assoc_get (ps_pending p) h = Some pi ->
   exists p' gs', register_go p (h :: r) = register_go p' r /\
-    QS w d p' gs' /\ all_clean (s_queues (ps_sync p')) /\ p_rest p p' /\
+    QSg sp w d p' gs' /\ all_clean (s_queues (ps_sync p')) /\ p_rest p p' /\
     s_current (ps_sync p') = s_current (ps_sync p) /\ s_last_confirmed (ps_sync p') = s_last_confirmed (ps_sync p) /\
     Done (s_current (ps_sync p)) d (s_queues (ps_sync p')) gs' h /\
     (forall h', h' <> h -> 0 <= h' -> Done (s_current (ps_sync p)) d (s_queues (ps_sync p)) gs h' ->
@@ -510,7 +525,7 @@ Lemma register_step : forall w d p gs h pi r,
     grows_all (s_current (ps_sync p)) (s_queues (ps_sync p)) gs (s_queues (ps_sync p')) gs' /\
     hist_step d (ps_pending p) [h] gs gs'.
 Proof.
-  intros w d p gs h pi r HQS Hcl Hh Hk Hpend.
+  intros sp w d p gs h pi r HQS Hcl Hh Hk Hpend.
   pose proof HQS as [Hw Hd Hmode Hn Hconn Hgos HQ Hlast Hfr Hkinds Hpe].
   set (c := s_current (ps_sync p)) in *. set (L := s_last_confirmed (ps_sync p)) in *.
   pose proof (QsI_length _ _ _ _ HQ) as Hlq.
@@ -545,7 +560,7 @@ Proof.
     assert (Hx : [] ++ repeat (hlast []) (Z.to_nat (c + q_delay q - hlen [])) ++ [pi_val pi] = [] ++ repeat 0 (Z.to_nat d) ++ [pi_val pi]).
     { rewrite Hcz, Hdel. unfold hlen, hlast. cbn [length Z.of_nat last]. replace (0 + d - 0) with d by lia. reflexivity. }
     rewrite Hx in I'.
-    apply (register_tail w d p gs h (pi_val pi) r q q' [] ([] ++ repeat 0 (Z.to_nat d) ++ [pi_val pi]) 0 HQS Hcl Hh Hk Eq Eg Hpn Hfq I' D'
+    apply (register_tail sp w d p gs h (pi_val pi) r q q' [] ([] ++ repeat 0 (Z.to_nat d) ++ [pi_val pi]) 0 HQS Hcl Hh Hk Eq Eg Hpn Hfq I' D'
              ltac:(fold c; exact U') R' F' P'
              ltac:(fold c; rewrite hlen_fill; unfold hlen; cbn [length]; lia)
              ltac:(rewrite hlen_fill; unfold hlen; cbn [length]; lia)
@@ -562,7 +577,7 @@ Proof.
     assert (Hx : hist ++ repeat (hlast hist) (Z.to_nat (c + q_delay q - hlen hist)) ++ [pi_val pi] = hist ++ repeat 0 0 ++ [pi_val pi]).
     { rewrite Hdel, Hhl2. replace (c + d - (c + d)) with 0 by lia. reflexivity. }
     rewrite Hx in I'.
-    apply (register_tail w d p gs h (pi_val pi) r q q' hist (hist ++ repeat 0 0 ++ [pi_val pi]) low HQS Hcl Hh Hk Eq Eg Hpn Hfq I' D'
+    apply (register_tail sp w d p gs h (pi_val pi) r q q' hist (hist ++ repeat 0 0 ++ [pi_val pi]) low HQS Hcl Hh Hk Eq Eg Hpn Hfq I' D'
              ltac:(fold c; exact U') R' F' P'
              ltac:(fold c; rewrite hlen_fill; cbn [Z.of_nat]; lia)
              ltac:(rewrite hlen_fill; lia)
@@ -580,23 +595,23 @@ Proof.
     + split; [apply grows_all_refl|apply hist_step_refl].
 Qed.
 
-Lemma register_go_progress : forall hs w d p gs,
-  QS w d p gs -> all_clean (s_queues (ps_sync p)) -> NoDup hs ->
+Lemma register_go_progress : forall sp hs w d p gs,
+  QSg sp w d p gs -> all_clean (s_queues (ps_sync p)) -> NoDup hs ->
   Forall (fun h => 0 <= h /\ nth_error (ps_kinds p) (Z.to_nat h) = Some KLocal /\
                    exists pi, assoc_get (ps_pending p) h = Some pi) hs ->
-  exists p' gs', register_go p hs = Ok p' /\ QS w d p' gs' /\ all_clean (s_queues (ps_sync p')) /\ p_rest p p' /\
+  exists p' gs', register_go p hs = Ok p' /\ QSg sp w d p' gs' /\ all_clean (s_queues (ps_sync p')) /\ p_rest p p' /\
     s_current (ps_sync p') = s_current (ps_sync p) /\ s_last_confirmed (ps_sync p') = s_last_confirmed (ps_sync p) /\
     (forall h, 0 <= h -> In h hs \/ Done (s_current (ps_sync p)) d (s_queues (ps_sync p)) gs h ->
                Done (s_current (ps_sync p)) d (s_queues (ps_sync p')) gs' h) /\
     grows_all (s_current (ps_sync p)) (s_queues (ps_sync p)) gs (s_queues (ps_sync p')) gs' /\
     hist_step d (ps_pending p) hs gs gs'.
 Proof.
-  induction hs as [|h r IH]; intros w d p gs HQS Hcl Hnd Hall.
+  intros sp. induction hs as [|h r IH]; intros w d p gs HQS Hcl Hnd Hall.
   - exists p, gs. cbn [register_go]. split; [reflexivity|]. split; [exact HQS|]. split; [exact Hcl|].
     split; [apply p_rest_refl|]. split; [reflexivity|]. split; [reflexivity|]. split; [|split; [apply grows_all_refl|apply hist_step_refl]].
     intros h _ [[]|H]. exact H.
   - inversion Hall as [|? ? (Hh & Hk & pi & Hpe) Hall']; subst. inversion Hnd as [|? ? Hnin Hnd']; subst.
-    destruct (register_step w d p gs h pi r HQS Hcl Hh Hk Hpe) as (p1 & gs1 & E1 & HQ1 & Hcl1 & Hr1 & Hc1 & HL1 & Hd1 & Ht1 & Hg1 & Hh1).
+    destruct (register_step sp w d p gs h pi r HQS Hcl Hh Hk Hpe) as (p1 & gs1 & E1 & HQ1 & Hcl1 & Hr1 & Hc1 & HL1 & Hd1 & Ht1 & Hg1 & Hh1).
     rewrite E1.
     assert (Hpend1 : ps_pending p1 = ps_pending p) by (destruct Hr1 as (_ & _ & _ & _ & _ & _ & _ & _ & _ & Hp1 & _); exact Hp1).
     assert (Hall1 : Forall (fun h => 0 <= h /\ nth_error (ps_kinds p1) (Z.to_nat h) = Some KLocal /\
@@ -626,8 +641,8 @@ Proof.
     constructor; [lia|]. eapply IH; eassumption.
 Qed.
 
-Lemma QS_resync : forall w d p gs s' gs',
-  QS w d p gs -> s_maxpred s' = s_maxpred (ps_sync p) ->
+Lemma QS_resync : forall sp w d p gs s' gs',
+  QSg sp w d p gs -> s_maxpred s' = s_maxpred (ps_sync p) ->
   QsI (s_current s') (s_last_confirmed s') (s_queues s') gs' ->
   map (fun g : ghost => hlen (fst g)) gs' = map (fun g : ghost => hlen (fst g)) gs ->
   (-1 <= s_last_confirmed s' <= s_current s' /\ 0 <= s_current s' /\ s_current s' <= Z.max 0 (s_last_confirmed s') + w) ->
@@ -635,9 +650,9 @@ Lemma QS_resync : forall w d p gs s' gs',
                       nth_error gs' h = Some gh' -> KI (s_current s') d k q' (fst gh')) ->
   (forall h pi, assoc_get (ps_pending p) h = Some pi -> pi_frame pi = s_current s') ->
   spec_ok (with_sync p s') gs' ->
-  QS w d (with_sync p s') gs'.
+  QSg sp w d (with_sync p s') gs'.
 Proof.
-  intros w d p gs s' gs' [Hw Hd Hmode Hn Hconn Hgos HQ Hlast Hfr Hkinds Hpe Hsok] Hmp HQ' Hmap Hfr' Hk' Hp' Hsok'.
+  intros sp w d p gs s' gs' [Hw Hd Hmode Hn Hconn Hgos HQ Hlast Hfr Hkinds Hpe Hsok] Hmp HQ' Hmap Hfr' Hk' Hp' Hsok'.
   assert (Hlen : length gs' = length gs).
   { apply (f_equal (@length Z)) in Hmap. rewrite !map_length in Hmap. exact Hmap. }
   constructor; cbn [with_sync ps_maxpred ps_sync ps_running ps_sparse ps_spectators ps_disc_frame ps_nplayers
@@ -696,8 +711,8 @@ Qed.
 Lemma local_handles_nodup : forall p, NoDup (local_handles p).
 Proof. intros p. unfold local_handles. apply NoDup_filter. apply zrange_nodup. Qed.
 
-Lemma QS_nplayers : forall w d p gs, QS w d p gs -> ps_nplayers p = Z.of_nat (length (ps_kinds p)).
-Proof. intros w d p gs H. destruct (qs_n _ _ _ _ H) as (A & _ & B & _). lia. Qed.
+Lemma QS_nplayers : forall sp w d p gs, QSg sp w d p gs -> ps_nplayers p = Z.of_nat (length (ps_kinds p)).
+Proof. intros sp w d p gs H. destruct (qs_n _ _ _ _ H) as (A & _ & B & _). lia. Qed.
 
 Lemma map_fst_nth : forall (gs gs' : list ghost) h gh', map fst gs' = map fst gs -> nth_error gs' h = Some gh' ->
   exists gh, nth_error gs h = Some gh /\ fst gh = fst gh'.
@@ -719,9 +734,9 @@ Lemma local_handles_with_sync : forall p s, local_handles (with_sync p s) = loca
 Proof. reflexivity. Qed.
 Lemma with_pending_sync : forall p s l, with_pending (with_sync p s) l = with_sync (with_pending p l) s.
 Proof. reflexivity. Qed.
-Lemma QS_no_pending : forall w d p gs, QS w d p gs -> QS w d (with_pending p []) gs.
+Lemma QS_no_pending : forall sp w d p gs, QSg sp w d p gs -> QSg sp w d (with_pending p []) gs.
 Proof.
-  intros w d p gs [A B C D E F G H I J K]. constructor; cbn [with_pending ps_maxpred ps_sync ps_running ps_sparse ps_spectators ps_disc_frame ps_nplayers ps_kinds ps_status ps_remotes ps_pending]; try assumption.
+  intros sp w d p gs [A B C D E F G H I J K]. constructor; cbn [with_pending ps_maxpred ps_sync ps_running ps_sparse ps_spectators ps_disc_frame ps_nplayers ps_kinds ps_status ps_remotes ps_pending]; try assumption.
   intros h pi X. discriminate X.
 Qed.
 
@@ -810,9 +825,9 @@ Qed.
 Section ProgressB.
 Variable predict : Z -> Z.
 
-Lemma QS_next_spec : forall w d p gs ns, QS w d p gs -> spec_ok (with_next_spec p ns) gs -> QS w d (with_next_spec p ns) gs.
+Lemma QS_next_spec : forall sp w d p gs ns, QSg sp w d p gs -> spec_ok (with_next_spec p ns) gs -> QSg sp w d (with_next_spec p ns) gs.
 Proof.
-  intros w d p gs ns [A B C D E F G H I J K L] Hs.
+  intros sp w d p gs ns [A B C D E F G H I J K L] Hs.
   constructor; cbn [with_next_spec ps_maxpred ps_sync ps_running ps_sparse ps_spectators ps_disc_frame ps_nplayers ps_kinds ps_status ps_remotes ps_pending]; assumption.
 Qed.
 
@@ -911,7 +926,7 @@ Proof.
   assert (Hbase : with_sync p2 s3 = with_sync (with_next_spec p (next_spec_after p cf)) s3).
   { rewrite Hp2, Hshape. reflexivity. }
   rewrite Hbase.
-  apply (QS_resync w d (with_next_spec p (next_spec_after p cf)) gs s3 gs3 (QS_next_spec _ _ _ _ _ HQS Hsok2)).
+  apply (QS_resync _ w d (with_next_spec p (next_spec_after p cf)) gs s3 gs3 (QS_next_spec _ _ _ _ _ _ HQS Hsok2)).
   - cbn [with_next_spec ps_sync]. rewrite Hmp3, Hmp1. symmetry. exact Hw3.
   - rewrite Hc3, HL3. exact HQ3.
   - apply map_fst_hlens. exact Hmap3.
@@ -960,16 +975,16 @@ Proof.
   assert (Hpend3 : forall h, In h (local_handles p3) -> exists pi, assoc_get (ps_pending p3) h = Some pi).
   { intros h Hin. rewrite Hpe3. apply Hpend. rewrite <- Hlh3. exact Hin. }
   (* register the local inputs *)
-  pose proof (QS_nplayers _ _ _ _ HQS3) as Hnp3.
+  pose proof (QS_nplayers _ _ _ _ _ HQS3) as Hnp3.
   assert (Hall : Forall (fun h => 0 <= h /\ nth_error (ps_kinds p3) (Z.to_nat h) = Some KLocal /\
                                    exists pi, assoc_get (ps_pending p3) h = Some pi) (local_handles p3)).
   { apply Forall_forall. intros h Hin. pose proof Hin as Hin2. apply (local_handles_spec p3 h Hnp3) in Hin2.
     destruct Hin2 as (Hr & Hk). split; [lia|]. split; [exact Hk|]. apply Hpend3. exact Hin. }
-  destruct (register_go_progress (local_handles p3) w d p3 gs3 HQS3 Hcl3 (local_handles_nodup p3) Hall)
+  destruct (register_go_progress false (local_handles p3) w d p3 gs3 HQS3 Hcl3 (local_handles_nodup p3) Hall)
     as (p4 & gs4 & E4 & HQS4 & Hcl4 & Hrest4 & Hc4 & HL4 & Hdone4 & _).
   unfold register_local_inputs. rewrite E4. cbn [res_bind].
   destruct (send_ready_outgoing_ok p4 o2) as (p5 & o5 & E5 & O5). rewrite E5. cbn [res_bind].
-  pose proof (QS_out_only _ _ _ _ _ HQS4 O5) as HQS5.
+  pose proof (QS_out_only _ _ _ _ _ _ HQS4 O5) as HQS5.
   assert (Hs5 : ps_sync p5 = ps_sync p4) by (rewrite O5; reflexivity).
   assert (Hst5 : ps_status p5 = ps_status p4) by (rewrite O5; reflexivity).
   assert (Hk5 : ps_kinds p5 = ps_kinds p3).
@@ -989,7 +1004,7 @@ Proof.
   unfold synchronized_inputs. fold c. rewrite E. cbn [res_bind].
   eexists; eexists; exists gs4. split; [reflexivity|].
   rewrite with_pending_sync.
-  apply (QS_resync w d (with_pending p5 []) gs4 _ gs4 (QS_no_pending _ _ _ _ HQS5)).
+  apply (QS_resync _ w d (with_pending p5 []) gs4 _ gs4 (QS_no_pending _ _ _ _ _ HQS5)).
   - cbn. rewrite Hs5. reflexivity.
   - cbn [advance_frame with_current with_queues s_current s_last_confirmed s_queues]. fold c L4. exact HQ'.
   - reflexivity.
@@ -1022,13 +1037,13 @@ End ProgressB.
 Section ProgressC.
 Variable predict : Z -> Z.
 
-Lemma QS_same_queues : forall w d p gs s',
-  QS w d p gs -> s_maxpred s' = s_maxpred (ps_sync p) -> s_queues s' = s_queues (ps_sync p) ->
+Lemma QS_same_queues : forall sp w d p gs s',
+  QSg sp w d p gs -> s_maxpred s' = s_maxpred (ps_sync p) -> s_queues s' = s_queues (ps_sync p) ->
   s_current s' = s_current (ps_sync p) -> s_last_confirmed s' = s_last_confirmed (ps_sync p) ->
-  QS w d (with_sync p s') gs.
+  QSg sp w d (with_sync p s') gs.
 Proof.
-  intros w d p gs s' HQS Hm Hq Hc HL. pose proof HQS as [A B C D E F G H I J K Ls].
-  apply (QS_resync w d p gs s' gs HQS Hm).
+  intros sp w d p gs s' HQS Hm Hq Hc HL. pose proof HQS as [A B C D E F G H I J K Ls].
+  apply (QS_resync _ w d p gs s' gs HQS Hm).
   - rewrite Hq, Hc, HL. exact G.
   - reflexivity.
   - rewrite Hc, HL. exact I.
@@ -1061,7 +1076,7 @@ Proof.
     { destruct (Z.eqb_spec (s_current (ps_sync p)) 0) as [Ec|Ec]; cbn [andb].
       - unfold save_current_state. rewrite Ec. cbn [Z.ltb Z.compare res_bind].
         eexists; eexists. split; [reflexivity|]. split; [|split; [|repeat split]].
-        + apply QS_same_queues; [exact HQS|first [reflexivity|cbn; lia]..].
+        + apply (QS_same_queues false); [exact HQS|first [reflexivity|cbn; lia]..].
         + destruct HJI as [Jw Jmp Jfr Jcur Jroll]. constructor; cbn [with_sync ps_maxpred ps_sync ps_sparse s_current s_maxpred]; try assumption.
           * rewrite <- Ec. exact Jfr.
           * lia.
@@ -1085,17 +1100,17 @@ End ProgressC.
 
 (* ---------- the other operations of C01's space ---------- *)
 (* an input of a remote player arrives for the next frame of that player, while the ring has room *)
-Lemma remote_progress : forall w d p gs pl f v e,
-  QS w d p gs -> 0 <= pl < ps_nplayers p -> nth_error (ps_kinds p) (Z.to_nat pl) = Some (KRemote e) ->
+Lemma remote_progress : forall sp w d p gs pl f v e,
+  QSg sp w d p gs -> 0 <= pl < ps_nplayers p -> nth_error (ps_kinds p) (Z.to_nat pl) = Some (KRemote e) ->
   f = q_last_added (qnth (ps_sync p) pl) + 1 -> q_length (qnth (ps_sync p) pl) < QLEN ->
-  exists p' gs', ev_input p pl f v = Ok p' /\ QS w d p' gs' /\
+  exists p' gs', ev_input p pl f v = Ok p' /\ QSg sp w d p' gs' /\
     exists q hist low q', nth_error (s_queues (ps_sync p)) (Z.to_nat pl) = Some q /\
       nth_error gs (Z.to_nat pl) = Some (hist, low) /\ gs' = updz gs (Z.to_nat pl) (hist ++ [v], low) /\
       s_queues (ps_sync p') = updz (s_queues (ps_sync p)) (Z.to_nat pl) q' /\
       q_first_incorrect q' = fi_after q v (hlen hist) /\ q_pred q' = pred_after q v (hlen hist) /\
       s_current (ps_sync p') = s_current (ps_sync p).
 Proof.
-  intros w d p gs pl f v e HQS Hpl Hk Hf Hcap.
+  intros sp w d p gs pl f v e HQS Hpl Hk Hf Hcap.
   pose proof HQS as [Hw Hd Hmode Hn Hconn Hgos HQ Hlast Hfr Hkinds Hpe Hsok].
   destruct Hn as (Hn1 & Hn2 & Hn3 & Hn4).
   pose proof (QsI_length _ _ _ _ HQ) as Hlq.
@@ -1150,11 +1165,11 @@ Proof.
   - eapply spec_ok_grow; [exact Hsok|reflexivity|reflexivity|reflexivity|]. eapply grow_updz; [exact Eg|rewrite hlen_app; lia].
 Qed.
 
-Lemma local_progress : forall w d p gs h v,
-  QS w d p gs -> QS w d (fst (api_add_local_input p h v)) gs /\ ps_sync (fst (api_add_local_input p h v)) = ps_sync p /\
+Lemma local_progress : forall sp w d p gs h v,
+  QSg sp w d p gs -> QSg sp w d (fst (api_add_local_input p h v)) gs /\ ps_sync (fst (api_add_local_input p h v)) = ps_sync p /\
                  ps_sparse (fst (api_add_local_input p h v)) = ps_sparse p /\ ps_maxpred (fst (api_add_local_input p h v)) = ps_maxpred p.
 Proof.
-  intros w d p gs h v HQS. unfold api_add_local_input.
+  intros sp w d p gs h v HQS. unfold api_add_local_input.
   destruct (kind_at p h) as [[| |]|]; cbn [fst]; try (split; [exact HQS|repeat split]).
   split; [|repeat split].
   destruct HQS as [A B C D E F G H I J K].
@@ -1171,9 +1186,9 @@ Proof.
   - inversion Ha; inversion Hb; subst. apply IH; assumption.
 Qed.
 
-Lemma gossip_progress : forall w d p gs ep st, QS w d p gs -> connected st -> QS w d (gossip p ep st) gs.
+Lemma gossip_progress : forall sp w d p gs ep st, QSg sp w d p gs -> connected st -> QSg sp w d (gossip p ep st) gs.
 Proof.
-  intros w d p gs ep st HQS Hst. unfold gossip.
+  intros sp w d p gs ep st HQS Hst. unfold gossip.
   destruct (nth_error (ps_remotes p) (Z.to_nat ep)) as [e|] eqn:Ee; [|exact HQS].
   destruct HQS as [A B C D E F G H I J K].
   constructor; cbn [with_remotes ps_maxpred ps_sync ps_running ps_sparse ps_spectators ps_disc_frame ps_nplayers ps_kinds ps_status ps_remotes ps_pending]; try assumption.
@@ -1288,7 +1303,7 @@ Lemma step_in_space : forall p gs g w d o,
 Proof.
   intros p gs g w d o HQS HJI Hok. destruct o as [h v|pl f v|ep st|hs|h|h dd|]; cbn [op_ok] in Hok; try discriminate.
   - (* add_local_input *)
-    destruct (local_progress w d p gs h v HQS) as (HQ' & Hs & Hsp & Hmp).
+    destruct (local_progress _ w d p gs h v HQS) as (HQ' & Hs & Hsp & Hmp).
     cbn [sstep]. destruct (api_add_local_input p h v) as [p' r] eqn:E. cbn [fst] in *.
     exists (mksr p' out0 r), gs, g. split; [reflexivity|]. cbn [sr_state sr_out out0 o_requests exec].
     split; [exact HQ'|]. split; [reflexivity|].
@@ -1297,7 +1312,7 @@ Proof.
     apply andb_prop in Hok. destruct Hok as [Hok H5]. apply andb_prop in Hok. destruct Hok as [Hok H4].
     apply andb_prop in Hok. destruct Hok as [Hok H3]. apply andb_prop in Hok. destruct Hok as [H1 H2].
     destruct (nth_error (ps_kinds p) (Z.to_nat pl)) as [[|e|e]|] eqn:Ek; try discriminate.
-    destruct (remote_progress w d p gs pl f v e HQS ltac:(lia) Ek ltac:(lia) ltac:(lia)) as (p' & gs' & E & HQ' & _).
+    destruct (remote_progress _ w d p gs pl f v e HQS ltac:(lia) Ek ltac:(lia) ltac:(lia)) as (p' & gs' & E & HQ' & _).
     cbn [sstep]. rewrite E. cbn [res_bind].
     exists (mksr p' out0 AOk), gs', g. split; [reflexivity|]. cbn [sr_state sr_out out0 o_requests exec].
     split; [exact HQ'|]. split; [reflexivity|].
